@@ -59,6 +59,7 @@ func (p *c06Prop) Parallel() int { return 8 }
 func (p *c06Prop) Gen(r *Rng, i int, tier string) interface{} {
 	c := &c06Case{Ver: []int{3, 4, 5}[i%3], Allowed: !r.Chance(8), SubsID: !r.Chance(25)}
 	subscribed := map[int]bool{}
+	q2used := map[int]bool{}
 	mk := func(t int) c06Pkt {
 		pk := c06Pkt{T: t}
 		switch t {
@@ -66,6 +67,15 @@ func (p *c06Prop) Gen(r *Rng, i int, tier string) interface{} {
 			pk.QoS = r.Intn(3)
 			if pk.QoS > 0 {
 				pk.ID = 1 + r.Intn(50)
+				// an identifier of a QoS 2 publish that has not been released is not used again: the handshake
+				// state (duplicates, PUBREL for a stored message) is C04's model, this one is about the
+				// connection's protocol states and keeps no list of stored identifiers
+				for q2used[pk.ID] {
+					pk.ID = 1 + r.Intn(50)
+				}
+				if pk.QoS == 2 {
+					q2used[pk.ID] = true
+				}
 				if r.Chance(10) {
 					pk.ID = 0
 				}
